@@ -27,6 +27,19 @@ def specs_for(ctx):
             shifts = {str(c): rng.randrange(6) for c in range(nc)}
             specs.append(mk(rng, {"kind": "catalogue", "base": base, "sagitta": rng.choice([None, 0.15]), "tseed": 5}, 10.0,
                             flips, shifts, k=rng.choice([0, 1, 3]), exhaustive=True))
+    # ragged sub-tissues of the 3x3 patch in which TWO cells hang on a single neighbour (cells without internal interface:
+    # their pressures are re-inserted as zeros), listed in another order in the second run
+    from harness.gen import catalogue
+    hex33 = catalogue.load("hex33")["cells"]
+    for i in range(ctx.pick(16, 200)):
+        keep = rng.choice([[0, 2, 3, 4, 5, 6, 8], [0, 2, 3, 4, 5, 6], [0, 1, 2, 3, 4, 5, 6, 8]])
+        nc = len(keep)
+        sp = mk(rng, {"kind": "catalogue", "base": "hex33", "cells": [hex33[c] for c in keep], "sagitta": rng.choice([None, 0.12]), "tseed": 9},
+                10.0, {str(c): rng.random() < 0.5 for c in range(nc)}, {str(c): rng.randrange(6) for c in range(nc)}, k=rng.choice([1, 3]))
+        perm = list(range(nc))
+        rng.shuffle(perm)
+        sp["runB"]["group"]["cell_perm"] = perm
+        specs.append(sp)
     for i in range(ctx.pick(30, 800)):
         tissue = {"kind": "equilibrium", "ncells": rng.choice([6, 12, 20] if ctx.quick else [6, 12, 20, 40]),
                   "mobius": rng.choice([0.0, 0.6, 1.3]), "noise": rng.choice([0, 0.1, 0.5])}
@@ -65,7 +78,7 @@ def run(ctx):
                 "random id renumbering / vertex storage order; random Voronoi/Moebius tissues (equilibrium and noisy) with random "
                 "flips, shifts, renumbering; non-trivial = both runs completed and were compared")
     ctx.exhaustive = not ctx.quick
-    ctx.assumptions += ["cells are inserted in construction order in both runs (as every parser does)",
+    ctx.assumptions += ["cells are inserted in construction order in both runs except in the ragged hex33 pairs (listed in a permuted order)",
                         "tensions compared only when the true system is well conditioned (otherwise the minimiser is not unique)"]
 
 
